@@ -12,7 +12,7 @@ func init() {
 	register(&Property{
 		ID:  "C16",
 		Run: runC16,
-		Explanation: "v1 Stop/cancel completes: for each of the four v1 goroutine entries the checker enumerates every potentially blocking operation reachable from it (select, plain send/receive, Sleep, WaitGroup.Wait, Break/Stop/GracefulStop of a sub-discipline, dynamic calls) and requires it to be a select that contains every stop signal of its goroutine or one of the enumerated bounded idioms (S1); decomposes every CFG cycle into strongly connected components and requires each to have a bounded trip count or a stop exit that leaves the component (S2); checks the order in which the entry's deferred calls run (S4-S6) and that no output write is reachable from a deferred call. The subsequence clause (S7) is decided by the C02 rules in their v1 form.",
+		Explanation: "v1 Stop/cancel completes: for each of the v1 goroutine entries (priority, join and Simple main, the Simple handler, the Simple graceful-stop helper) the checker enumerates every potentially blocking operation reachable from it (select, plain send/receive, Sleep, WaitGroup.Wait, Break/Stop/GracefulStop of a sub-discipline, dynamic calls) and requires it to be a select that contains every stop signal of its goroutine or one of the enumerated bounded idioms (S1); decomposes every CFG cycle into strongly connected components and requires each to have a bounded trip count or a stop exit that leaves the component (S2); checks the order in which the entry's deferred calls run (S4-S6) and that no output write is reachable from a deferred call. The subsequence clause (S7) is decided by the C02 rules in their v1 form.",
 		NotDecided: []string{"the bound in real time (only that every wait is stop-aware and every loop leaves on stop)"},
 	})
 }
@@ -135,7 +135,7 @@ func (p *Prog) stopExitBlock(req []string) func(b *ssa.BasicBlock, scc map[*ssa.
 func runC16(c *Ctx) {
 	r := c.R
 	p := c.V1
-	r.Doc("S0", "role resolution: the four v1 goroutine entries", 4)
+	r.Doc("S0", "role resolution: the five v1 goroutine entries (main of priority, join, Simple; Simple handler; Simple graceful-stop helper)", 5)
 	r.Doc("S1", "every potentially blocking operation reachable from a v1 goroutine is a select containing every stop signal of that goroutine, or an enumerated bounded idiom", 20)
 	r.Doc("S2", "every CFG cycle has a bounded trip count or a stop exit leaving it (stop-complete select whose stop clauses leave the loop, or a tested stop-reporting call)", 12)
 	r.Doc("S3", "stop clauses of blocking selects outside loops leave their function", 4)
@@ -323,6 +323,11 @@ func c16routine(c *Ctx, rt *Routine) {
 		case "Err", "Output":
 			r.Pass("S1", key, site, "returns a channel, does not block")
 		case "GracefulStop":
+			if rt.E.Helper() {
+				okh, why := p.helperBounded(rt.D, rt.E)
+				r.Check(okh, "S1", key, site, "GracefulStop() of the sub-discipline in a joined helper goroutine: "+why, "GracefulStop() of the sub-discipline in a helper goroutine: "+why)
+				continue
+			}
 			r.Fail("S1", key, site, "GracefulStop() of the sub-discipline blocks until its inputs are closed and drained; while it is pending neither Stop() nor cancellation of Opts.Ctx is observed")
 		default:
 			r.Fail("S1", key, site, "UNDECIDED: call of "+name+" on a sub-discipline")
@@ -337,7 +342,24 @@ func c16routine(c *Ctx, rt *Routine) {
 		return
 	}
 	desc := p.describeDefers(order)
-	if !rt.E.Multi {
+	if rt.E.Helper() {
+		// a helper goroutine is joined by its parent and must not raise the parent's signals
+		var bad []string
+		done := false
+		for _, d := range order {
+			switch k, _ := p.deferKind(d); k {
+			case "wgdone":
+				done = true
+			case "complete":
+				bad = append(bad, "a helper goroutine completes a breaker: Stop() returns before the discipline has terminated")
+			}
+		}
+		if !done {
+			bad = append(bad, "helper goroutine does not defer wg.Done(): the parent's wg.Wait() never returns")
+		}
+		r.Check(len(bad) == 0, "S4", ekey, p.Pos(fn.Pos()), "helper goroutine; run order: "+desc, strings.Join(bad, "; ")+" (run order: "+desc+")")
+	}
+	if !rt.E.Multi && rt.E.Parent == nil {
 		firstComplete := -1
 		var bad []string
 		ncomplete := 0
